@@ -22,6 +22,10 @@ def py_val(v, kind=None):
     return v
 
 
+class ReplayNotApplicable(Exception):
+    pass
+
+
 class PreFalse(Exception):
     pass
 
@@ -86,6 +90,8 @@ class NativeBuilder:
     def array(self, name, shape, dtype='float'):
         import numpy as np
         shape = tuple(int(s) for s in shape)
+        if any(n < 0 for n in shape) or (shape and __import__('math').prod(shape) > 4_000_000):
+            raise ReplayNotApplicable(f'array extent {shape} of the counter-model is not replayable')
         np_dt = {'float': float, 'int': int, 'bool': bool}[dtype]
         spec = self.model.get(name)
         if shape == ():
@@ -96,6 +102,19 @@ class NativeBuilder:
             for idx, val in spec['entries']:
                 if all(0 <= i < n for i, n in zip(idx, shape)):
                     arr[tuple(idx)] = py_val(val)
+        fe = self.model.get('finite_' + name)
+        if dtype == 'float' and isinstance(fe, dict) and 'entries' in fe:
+            # pixels the counter-model declares non-finite (finite_<name>(index) == False) become NaN
+            isfalse = lambda v: v is False or str(v) == 'False'
+            if isfalse(fe.get('else')):
+                keep = [tuple(i) for i, val in fe['entries'] if not isfalse(val) and all(0 <= a < n for a, n in zip(i, shape))]
+                saved = [(i, arr[i]) for i in keep]
+                arr[...] = np.nan
+                for i, v in saved:
+                    arr[i] = v
+            for i, val in fe['entries']:
+                if isfalse(val) and all(0 <= a < n for a, n in zip(i, shape)):
+                    arr[tuple(i)] = np.nan
         self.used[name] = arr.tolist()
         return arr
 
@@ -336,6 +355,9 @@ def main():
     entry = [e for e in api.REGISTRY if e['cls'].__name__ == spec['contract']][0]
     try:
         verdict, detail = run_contract(entry['cls'], entry['target'], spec.get('case_kwargs') or {}, spec['model'], spec['clause'])
+    except ReplayNotApplicable as e:
+        print(json.dumps({'verdict': 'n/a', 'detail': str(e)}))
+        sys.exit(2)
     except Exception:
         traceback.print_exc()
         print('REPLAY ERROR')
